@@ -113,6 +113,7 @@ def size_random(ctx, n, vary_bc=False, external=False):
         rel = " rel" if rng.random() < 0.2 else ""
         ops.append("rinit %d %d%s" % (mb, bc, rel))
         nlines = 0
+        kmin = max(bc, 1)
         for _k in range(rng.choice([10, 40, 120, 300])):
             if nlines > 3900:
                 break
@@ -121,7 +122,7 @@ def size_random(ctx, n, vary_bc=False, external=False):
                 ops.append("w %d" % rand_len(rng, mb))
                 nlines += 1
             elif r < 0.90:
-                ops.append(rng.choice(["view", "view", "ls"]))
+                ops.append(rng.choice(["view", "view %d" % kmin, "ls"]))
             else:
                 ops.append("close")
                 if external and rng.random() < 0.5:
@@ -131,8 +132,9 @@ def size_random(ctx, n, vary_bc=False, external=False):
                     mb = rand_mb(rng)
                 if vary_bc and rng.random() < 0.6:
                     bc = rng.choice([0, 1, 2, 3, 4, 5])
+                    kmin = min(kmin, max(bc, 1))
                 ops.append("rinit %d %d%s" % (mb, bc, rel))
-        ops += ["view", "ls"]
+        ops += ["view", "view %d" % kmin, "ls"]
         cases.append(ops)
     return cases
 
@@ -303,7 +305,7 @@ def nontrivial(ops, out):
 def judge(ops, out):
     """Spec-level monitor on the implementation's own output, independent of Lean:
     whenever the pre-existing files were created oldest-first, nobody touched the
-    directory afterwards and the number of backups kept stayed the same, `view` (backups oldest..newest ++ live) must list consecutive
+    directory afterwards and k <= every max(backup_count,1) so far, `view k` (k newest backups oldest..newest ++ live) must list consecutive
     line ids and end with the newest line written; no file may be CORRUPT (a split line);
     no time-rotated line may be lost / split / land in several files."""
     ordered = True
@@ -332,15 +334,15 @@ def judge(ops, out):
         elif t[0] == "rinit" and line.startswith("ok"):
             started = True
             k = max(int(t[2]), 1)
-            if keep is not None and keep != k:
-                ordered = False         # backup_count changed: stale higher-numbered files may remain
-            keep = k
+            keep = k if keep is None else min(keep, k)   # smallest number of backups kept so far
             if int(t[1]) == 0:
                 zero_limit = True       # max_bytes 0 (outside the property): empty files are rotated too
         elif t[0] in ("w", "tw") and line not in ("closed", "bad-op"):
             last_written = created
             created += 1
         elif t[0] == "view" and ordered and line.startswith("k="):
+            if keep is None or int(line[2:].split()[0]) > keep:
+                continue                # files beyond the smallest backup_count may be stale leftovers
             body = line.split(" : ", 1)[1] if " : " in line else ""
             ids = [int(x.split(":")[0]) for x in body.replace("/", " ").split() if ":" in x]
             for a, b in zip(ids, ids[1:]):
